@@ -837,6 +837,29 @@ class Evaluator:
     def run(self, fi: FunctionInfo, args: Optional[Dict[str, Term]] = None, depth: int = 0, self_cls: Optional[ClassInfo] = None, base_env: Optional[Dict[str, Term]] = None) -> List[Outcome]:
         """Evaluate `fi` with parameters bound to `args` (missing ones become Sym,
         typed by their annotation when it names a package class)."""
+        wrapped = self._decorated_form(fi, depth) if fi.node.decorator_list else None
+        if wrapped is not None:
+            # @decorator def f(...): calling f is calling what decorator(f) returned
+            pseudo, cenv = wrapped
+            pa = pseudo.node.args
+            given = dict(args or {})
+            vals = []
+            for p_ in fi.node.args.posonlyargs + fi.node.args.args:
+                if p_.arg in given:
+                    vals.append(given[p_.arg])
+                elif p_.arg == 'self' and fi.cls is not None and fi.kind == 'method':
+                    vals.append(Sym('self', (self_cls or fi.cls).name))
+                else:
+                    c_ = self.ann_class(p_.annotation, fi.module)
+                    vals.append(Sym(p_.arg, c_.name if c_ else None))
+            wparams = [x.arg for x in pa.posonlyargs + pa.args]
+            mapped = dict(zip(wparams, vals))
+            if pa.vararg is not None:
+                mapped[pa.vararg.arg] = TupleT(tuple(vals[len(wparams):]))
+            if pa.kwarg is not None:
+                mapped[pa.kwarg.arg] = DictT(())
+            if len(vals) <= len(wparams) or pa.vararg is not None:
+                return self.run(pseudo, mapped, depth, base_env=dict(cenv, **(base_env or {})))
         env: Dict[str, Term] = dict(base_env or {})
         a = fi.node.args
         params = a.posonlyargs + a.args + a.kwonlyargs
@@ -961,6 +984,47 @@ class Evaluator:
         branch = ast.copy_location(ast.If(test=w.test, body=list(head) + [ret], orelse=[]), w)
         ast.fix_missing_locations(branch)
         return list(body[:wi]) + [branch] + list(body[wi + 1:])
+
+    def _decorated_form(self, fi: FunctionInfo, depth: int):
+        """(pseudo function, closure environment) of the wrapper that the package-defined decorators of fi return, or
+        None: decorators from outside the package (property, typechecked, v_args, wraps, ...) do not change what a call
+        computes and are ignored as before"""
+        if getattr(fi, '_is_raw', False):
+            return None
+        cached = getattr(fi, '_decorated', False)
+        if cached is not False:
+            return cached
+        import copy as _copy
+        res = None
+        try:
+            pkg = []
+            for d in fi.node.decorator_list:
+                r = self.m.resolve_name(fi.module, d.id) if isinstance(d, ast.Name) else None
+                if r and r[0] == 'func' and isinstance(r[1], FunctionInfo):
+                    pkg.append((d, r[1]))
+            if pkg:
+                node2 = _copy.copy(fi.node)
+                node2.decorator_list = [d for d in fi.node.decorator_list if all(d is not x for x, _ in pkg)]
+                raw = FunctionInfo(fi.name, fi.qualname + '@raw', fi.module, node2, fi.cls, fi.kind, list(fi.decorators))
+                raw._is_raw = True
+                self._fn_by_key[raw.key] = raw
+                f: Term = FuncRef(raw.key)
+                for _, dfi in reversed(pkg):
+                    f = self.inline_call(dfi, None, (f,), (), _State(), depth)
+                    if f is None:
+                        break
+                if isinstance(f, Lam) and f.closure is not None:
+                    node, cenv, cmod, cfi = f.closure
+                    pseudo = FunctionInfo(node.name, f'{fi.qualname}@wrapped', cmod, node, None, 'function')
+                    pseudo._is_raw = True
+                    res = (pseudo, dict(cenv))
+        except AnalysisError:
+            res = None
+        try:
+            fi._decorated = res
+        except Exception:  # pragma: no cover
+            pass
+        return res
 
     def bind_call(self, fi: FunctionInfo, recv: Optional[Term], args: Tuple[Term, ...], kwargs: Tuple[Tuple[str, Term], ...], depth: int) -> Optional[Dict[str, Term]]:
         a = fi.node.args
@@ -1371,19 +1435,23 @@ class Evaluator:
                 return [st]     # a loop over an empty literal does nothing
             if isinstance(lit, TupleT) and lit.kind in ('tuple', 'list') and 0 < len(lit.items) <= 8 and not s.orelse \
                     and not any(isinstance(x, Op) and x.op == '*' for x in lit.items) \
-                    and not any(isinstance(n, (ast.Break, ast.Continue)) for b in s.body for n in ast.walk(b)) \
+                    and not (any(isinstance(n, (ast.Break, ast.Continue)) for b in s.body for n in ast.walk(b))
+                             and any(isinstance(n, (ast.For, ast.While)) for b in s.body for n in ast.walk(b))) \
                     and not self._mutates(s.body, s.iter):
                 states = [st]
+                left: List[_State] = []      # paths that left the loop through `break`
                 for item in lit.items:
                     nxt: List[_State] = []
                     for cur in states:
                         self.assign(s.target, item, cur, mod, fi, depth)
-                        nxt.extend(self.block(s.body, [cur], mod, fi, depth, outs))
+                        for after in self.block(s.body, [cur], mod, fi, depth, outs):
+                            flow = after.env.pop('__flow__', None)
+                            (left if isinstance(flow, Const) and flow.value == 'break' else nxt).append(after)
                     states = nxt
-                    if len(states) > 64:
+                    if len(states) + len(left) > 64:
                         break
                 else:
-                    return states
+                    return states + left
                 # too many paths: fall through to the summary
         else:
             it = self.expr(s.test, st, mod, fi, depth)
@@ -2289,6 +2357,11 @@ class Evaluator:
             m = self._fn_by_key.get(func.key)
             if m is not None:
                 self.resolved_calls += 1
+                if not star and getattr(m, '_is_raw', False) and m.cls is not None and m.kind == 'method' and args:
+                    # the undecorated method, called by its wrapper with the instance as first argument
+                    r = self.inline_call(m, args[0], args[1:], kwargs, st, depth)
+                    if r is not None:
+                        return r
                 if not star and self.inline(m, depth):
                     r = self.inline_call(m, None, args, kwargs, st, depth)
                     if r is not None:
